@@ -411,6 +411,9 @@ class Extractor:
                         if d in PURE_BUILTINS or d in PURE_DOTTED:
                             pure = True
                     if pure:
+                        # hasattr(node, ..), len(array), list(group): reads through a file-layer object
+                        if any(self.is_tracked_expr(ctx, a) for a in n.args):
+                            add_opaque(n, "readNode")
                         return
                     add_opaque(n, "export")
                     return
